@@ -1,7 +1,7 @@
 (* C16 -- property theorems only.  Each is closed by [exact] of a lemma from Proofs.v. *)
 From Coq Require Import List Bool Arith PrimFloat.
 Import ListNotations.
-Require Import NV.C16.Model NV.C16.Proofs.
+Require Import NV.C16.Model NV.C16.Proofs NV.C16.ProofsBFGS.
 
 (* Soundness of the line search, control flow only: NO law about the arithmetic [A] is assumed, so
    the statement holds verbatim for IEEE doubles ([float_arith]), for every value function phi
@@ -105,3 +105,35 @@ Example C16_wolfe_nonvacuous_zoom :
       (fun a => (-3 + a + a*a*a)%float) (fun _ => None) (fun _ => None)
       1%float (-3)%float None None 1%float) = Ret 1.25%float true.
 Proof. vm_compute. reflexivity. Qed.
+
+(* The two L-BFGS variants give the same direction.  For every commutative ring F with an
+   uninterpreted division (no law about division is needed: both routines divide equal numerators by
+   equal denominators, so nothing is assumed about non-zero curvature), every dimension, every
+   window of m >= 1 stored pairs (s_j, y_j) and every gradient g, every value of the (unused)
+   [2m,2m] entry: VL_BFGS' direction  sum_l delta_l b_l, with delta computed from the Gram matrix
+   b_dot_b exactly as _InformationStore.delta does, equals L_BFGS' two-loop direction, component by
+   component.
+   PARTIAL: stated for the window of pairs ("the last min(k, max_history_length) pairs"); the ring
+   buffers s/y and the cached ss/sy/yy entries of _InformationStore are not modelled (they are
+   covered by the bit-exact replay of wrapped 1-pixel histories and by the n-D direct oracle). *)
+Theorem C16_lbfgs_equiv_partial :
+  forall (F : Type) (f0 f1 : F) (fadd fmul fsub fdiv : F -> F -> F) (fopp : F -> F),
+    Ring_theory.ring_theory f0 f1 fadd fmul fsub fopp (@eq F) ->
+    forall (dim m : nat) (s y : nat -> nat -> F) (g : nat -> F) (gnorm : F),
+      1 <= m ->
+      forall i,
+        vl_direction f0 f1 fadd fmul fsub fdiv fopp dim m s y g gnorm i =
+        lbfgs_direction f0 fadd fmul fsub fdiv fopp dim m s y g i.
+Proof. exact ProofsBFGS.lbfgs_equiv. Qed.
+
+(* Empty window (first call after a reset): VL_BFGS scales -g by |g|/|g| (Python's negative index
+   -1 into the 1x1 matrix), so the directions agree as soon as |g|/|g| = 1. *)
+Theorem C16_lbfgs_equiv_empty :
+  forall (F : Type) (f0 f1 : F) (fadd fmul fsub fdiv : F -> F -> F) (fopp : F -> F),
+    Ring_theory.ring_theory f0 f1 fadd fmul fsub fopp (@eq F) ->
+    forall (dim : nat) (s y : nat -> nat -> F) (g : nat -> F) (gnorm : F),
+      fdiv gnorm gnorm = f1 ->
+      forall i,
+        vl_direction f0 f1 fadd fmul fsub fdiv fopp dim 0 s y g gnorm i =
+        lbfgs_direction f0 fadd fmul fsub fdiv fopp dim 0 s y g i.
+Proof. exact ProofsBFGS.lbfgs_equiv0. Qed.
